@@ -1481,6 +1481,11 @@ impl<K: Key + 'static, V: Value + 'static> CursorMut<'_, '_, K, V> {
         run.entries.push_back(key, value);
         run.previous_key = Some(key.to_vec());
         run.inserted_pairs += 1;
+        #[cfg(redb_verif)]
+        if run.entries.total_bytes() >= crate::verif_knobs::insert_flush_bytes(INSERT_FLUSH_BYTES) {
+            self.flush_insert_run(true)?;
+            return Ok(true);
+        }
         if run.entries.total_bytes() >= INSERT_FLUSH_BYTES {
             self.flush_insert_run(true)?;
         }
@@ -1508,6 +1513,11 @@ impl<K: Key + 'static, V: Value + 'static> CursorMut<'_, '_, K, V> {
         }
         run.entries.push_front(key, value);
         run.inserted_pairs += 1;
+        #[cfg(redb_verif)]
+        if run.entries.total_bytes() >= crate::verif_knobs::insert_flush_bytes(INSERT_FLUSH_BYTES) {
+            self.flush_insert_run(true)?;
+            return Ok(true);
+        }
         if run.entries.total_bytes() >= INSERT_FLUSH_BYTES {
             self.flush_insert_run(true)?;
         }
